@@ -1302,7 +1302,7 @@ def m_any_all(c):
         pass
 
 
-@model("std::iter::Iterator::position")
+@model("std::iter::Iterator::position", "std::iter::Iterator::rposition")
 def m_position(c):
     r, _ = c.arg(0)
     it, loc = c.deref(r)
